@@ -10,9 +10,10 @@ pub mod c06;
 pub mod c08;
 pub mod c11;
 pub mod c12;
+pub mod c16;
 pub mod c20;
 
-const NEEDS_MIR: [&str; 4] = ["C08", "C11", "C12", "C20"];
+const NEEDS_MIR: [&str; 5] = ["C08", "C11", "C12", "C16", "C20"];
 
 pub fn dispatch(prop: &str, m: &Model, ctx: &mut Ctx, facts: Option<&Value>) -> bool {
     let mut loaded: Option<Facts> = None;
@@ -41,6 +42,7 @@ pub fn dispatch(prop: &str, m: &Model, ctx: &mut Ctx, facts: Option<&Value>) -> 
         "C08" => c08::run(m, ctx, loaded.as_ref().unwrap()),
         "C11" => c11::run(m, ctx, loaded.as_ref().unwrap()),
         "C12" => c12::run(m, ctx, loaded.as_ref().unwrap()),
+        "C16" => c16::run(m, ctx, loaded.as_ref().unwrap()),
         "C20" => c20::run(m, ctx, loaded.as_ref().unwrap()),
         _ => return false,
     }
